@@ -493,7 +493,9 @@ class SSHConfig:
         :param dict config: the currently parsed config
         :param str hostname: the hostname whose config is being looked up
         """
-        for k in config:
+        # Expand HostName first: %h in every other value refers to the expanded
+        # HostName, wherever that option happens to sit in the dict.
+        for k in sorted(config, key=lambda k: k != "hostname"):
             if config[k] is None:
                 continue
             tokenizer = partial(self._tokenize, config, target_hostname, k)
